@@ -47,6 +47,9 @@ def build(cell, names, xs=None):
     if xs is None:
         xs = cell.get("xs") or [xg[2] * 1.37, xg[5]]
     kins = [dict(x=float(x), Q2=q2) for x in xs]
+    if cell.get("xs_kind"):       # a cross-section kind in place of the structure function: needs the inelasticity
+        for i, k in enumerate(kins):
+            k["y"] = (0.8, 0.35)[i % 2]
     z, a = (float(common.frac(v)) for v in cell.get("target", [[1, 1], [1, 1]]))
     tgt = cell.get("target_name") or dict(Z=z, A=a)
     ob = cards.obs({n: [dict(k) for k in kins] for n in names}, xgrid=xg, deg=cell.get("deg", 3),
